@@ -232,6 +232,9 @@ class JSONSerializer(AbstractIncrementalPacketSerializer[Any, Any]):
                     },
                 ) from exc
             raise DeserializeError(msg) from exc
+        except (RecursionError, ValueError) as exc:
+            # Not a JSONDecodeError: too many nested containers, integer string conversion length limit, ...
+            raise DeserializeError(f"JSON decode error: {exc}") from exc
         return packet
 
     @final
@@ -299,6 +302,9 @@ class JSONSerializer(AbstractIncrementalPacketSerializer[Any, Any]):
                     },
                 ) from exc
             raise IncrementalDeserializeError(msg, remaining_data) from exc
+        except (RecursionError, ValueError) as exc:
+            # Not a JSONDecodeError: too many nested containers, integer string conversion length limit, ...
+            raise IncrementalDeserializeError(f"JSON decode error: {exc}", remaining_data) from exc
         return packet, remaining_data
 
     @property
